@@ -1,9 +1,12 @@
 package checks
 
 import (
+	"strconv"
+
 	"context"
 	"encoding/json"
 	"fmt"
+	gnmi "github.com/openconfig/gnmi/proto/gnmi"
 	"sort"
 	"strings"
 	"sync"
@@ -291,6 +294,29 @@ func (it syncItem) toSyncUpdate() *target.SyncUpdate {
 	return &target.SyncUpdate{Update: n}
 }
 
+// toGNMI is the notification as a gNMI device sends it.
+func (it syncItem) toGNMI() *gnmi.Notification {
+	n := &gnmi.Notification{Timestamp: 1}
+	for _, d := range it.Dels {
+		n.Delete = append(n.Delete, fixture.ToGPath(model.Parse(d)))
+	}
+	for _, u := range it.Upds {
+		var tv *gnmi.TypedValue
+		switch u.Form {
+		case "json":
+			b, _ := json.Marshal(u.JSON)
+			tv = &gnmi.TypedValue{Value: &gnmi.TypedValue_JsonVal{JsonVal: b}}
+		case "typed":
+			x, _ := strconv.ParseUint(u.Val, 10, 64)
+			tv = &gnmi.TypedValue{Value: &gnmi.TypedValue_UintVal{UintVal: x}}
+		default:
+			tv = &gnmi.TypedValue{Value: &gnmi.TypedValue_StringVal{StringVal: u.Val}}
+		}
+		n.Update = append(n.Update, &gnmi.Update{Path: fixture.ToGPath(model.Parse(u.Path)), Val: tv})
+	}
+	return n
+}
+
 // genScript draws a script; for W>1 notifications are grouped into batches of pairwise independent notifications
 // separated by barriers.
 func genScript(rng *core.Rng, W int, allowMultiJSON bool) []syncItem {
@@ -412,6 +438,17 @@ var c13Directed = []directedScript{
 	{"state leaf routing", 1, true, []syncItem{upd("/if[name=e1]/oper-state", "up"), upd("/if[name=e1]/descr", "cfg"), upd("/stats/rx", "10")}, false},
 }
 
+func waitFor(d time.Duration, cond func() bool) bool {
+	deadline := time.Now().Add(d)
+	for !cond() {
+		if time.Now().After(deadline) {
+			return false
+		}
+		time.Sleep(2 * time.Millisecond)
+	}
+	return true
+}
+
 type gateCtl struct {
 	mu      sync.Mutex
 	gating  bool
@@ -438,7 +475,32 @@ func (c *c13) RunCase(w *core.Worker, idx int, seed uint64, res *core.CaseResult
 	} else {
 		script = genScript(rng, W, false)
 	}
+	// wire modes: the production gNMI target (gnmic client over gRPC) subscribed to a gNMI device on loopback delivers
+	// the notifications ("stream": on-change subscription; "get": periodic Get, every cycle a complete re-sync)
+	wire := ""
+	if directed == "" {
+		switch (idx - len(c13Directed)) % 8 {
+		case 6:
+			wire = "stream"
+			var f []syncItem
+			for _, it := range script {
+				if it.Start || it.End {
+					// (the markers made the main loop wait for the writes in flight: the batches of pairwise
+					// independent notifications end there)
+					it = syncItem{Barrier: true}
+				}
+				f = append(f, it)
+			}
+			script = f
+		case 7:
+			wire = "get"
+			script = nil
+		}
+	}
 	desc := fmt.Sprintf("W=%d validate=%v", W, validate)
+	if wire != "" {
+		desc += " gnmi-wire=" + wire
+	}
 	if directed != "" {
 		desc += " directed: " + directed
 	}
@@ -480,18 +542,49 @@ func (c *c13) RunCase(w *core.Worker, idx int, seed uint64, res *core.CaseResult
 		g.arrive <- h
 		<-h.rel
 	}
-	ds := c.env.NewDS(fixture.DSOpts{Cache: fc, Sync: &config.Sync{Validate: validate, Buffer: 4096, WriteWorkers: int64(W)}})
+	dsOpts := fixture.DSOpts{Cache: fc, Sync: &config.Sync{Validate: validate, Buffer: 4096, WriteWorkers: int64(W)}}
+	var gdev *fixture.GNMIDevice
+	if wire != "" {
+		var err error
+		if gdev, err = fixture.NewGNMIDevice(); err != nil {
+			res.Inconclusive("C13/wire/no-device", "%v", err)
+			return
+		}
+		defer gdev.Close()
+		sbi := &config.SBI{Type: "gnmi", Address: "127.0.0.1", Port: gdev.Port(), GnmiOptions: &config.SBIGnmiOptions{Encoding: "proto"}}
+		tg, err := target.New(context.Background(), "c13w", sbi, nil)
+		if err != nil {
+			res.Inconclusive("C13/wire/connect", "%v", err)
+			return
+		}
+		dsOpts.Target = tg
+		dsOpts.Sync.Config = []*config.SyncProtocol{{Name: "config", Protocol: "gnmi", Mode: "on-change", Paths: []string{"/sys"}, Encoding: "proto"}}
+		if wire == "get" {
+			gdev.SetGetNotifs([]*gnmi.Notification{})
+			dsOpts.Sync.Config = append(dsOpts.Sync.Config, &config.SyncProtocol{Name: "get", Protocol: "gnmi", Mode: "get", Paths: []string{"/"}, Interval: 60 * time.Millisecond, Encoding: "PROTO"})
+		}
+	}
+	ds := c.env.NewDS(dsOpts)
 	defer ds.Close()
 	ctx, cancel := context.WithCancel(context.Background())
 	defer cancel()
 	go ds.Sync(ctx)
 	ch := ds.VerifSyncCh()
 	m := newMirror(validate)
+	send := func(it syncItem) { ch <- it.toSyncUpdate() }
+	if gdev != nil {
+		if !waitFor(10*time.Second, func() bool { return gdev.NumSubscribers() >= 1 }) {
+			res.Inconclusive("C13/wire/no-subscription", "%s: the target did not subscribe within 10 s", desc)
+			return
+		}
+		send = func(it syncItem) { gdev.Push(it.toGNMI()) }
+		res.Count("gnmi_wire_cases:"+wire, 1)
+	}
 
 	// controller: releases parked writes in PRNG order until W barriers are parked
 	barrier := func() bool {
 		for i := 0; i < W; i++ {
-			ch <- &target.SyncUpdate{Update: &sdcpb.Notification{Update: []*sdcpb.Update{{Path: mustPb("/verif-barrier"), Value: kindTv("uint", fmt.Sprint(i))}}}}
+			send(syncItem{Upds: []syncUpd{{Path: "/verif-barrier", Val: fmt.Sprint(i), Form: "typed"}}})
 		}
 		var parked []*gateHeld
 		var barriers []*gateHeld
@@ -555,7 +648,73 @@ func (c *c13) RunCase(w *core.Worker, idx int, seed uint64, res *core.CaseResult
 		return true
 	}
 	nNotif, nDel, prunes := 0, 0, 0
+	if wire == "get" {
+		// every Get is a complete re-sync cycle (start, what the device holds, end): after a cycle that began after the
+		// device changed, the running store is exactly what the device holds
+		g.mu.Lock()
+		g.gating = false
+		g.mu.Unlock()
+		for cycle := 0; cycle < 3 && len(res.Findings) == 0; cycle++ {
+			m = newMirror(validate)
+			var notifs []*gnmi.Notification
+			var cur syncItem
+			for _, l := range c13Leaves {
+				if l.state || !rng.Chance(1, 2) {
+					continue
+				}
+				form := "string"
+				if l.kind == "uint" && rng.Bool() {
+					form = "typed"
+				}
+				cur.Upds = append(cur.Upds, syncUpd{Path: l.path, Val: l.vals[rng.Intn(len(l.vals))], Form: form})
+				if rng.Chance(1, 4) {
+					notifs = append(notifs, cur.toGNMI())
+					m.apply(cur)
+					script = append(script, cur)
+					cur = syncItem{}
+				}
+			}
+			if len(cur.Upds) > 0 {
+				notifs = append(notifs, cur.toGNMI())
+				m.apply(cur)
+				script = append(script, cur)
+			}
+			script = append(script, syncItem{End: true})
+			nNotif += len(notifs)
+			prunes++
+			gdev.SetGetNotifs(notifs)
+			// quiescence by observation, not by time: (1) two Get rpcs after the change have arrived (the cycle of the
+			// first is completely in the sync channel), (2) the sync channel has been drained, (3) after that a cycle
+			// has been started and (4) a cycle has been ended and pruned
+			g0 := gdev.NumGets()
+			ok := waitFor(20*time.Second, func() bool { return gdev.NumGets() >= g0+2 }) &&
+				waitFor(20*time.Second, func() bool { return len(ch) == 0 })
+			if ok {
+				c1 := fc.Count("CreatePruneID")
+				ok = waitFor(20*time.Second, func() bool { return fc.Count("CreatePruneID") > c1 })
+			}
+			if ok {
+				a1 := fc.Count("ApplyPrune.done")
+				ok = waitFor(20*time.Second, func() bool { return fc.Count("ApplyPrune.done") > a1 })
+			}
+			if !ok {
+				res.Inconclusive("C13/wire/get-cycles", "%s: no complete re-sync cycle observed within 20 s", desc)
+				return
+			}
+			res.Count("get_cycles_awaited", 1)
+			cfg, _ := fixture.DumpStore(ctx, c.env.Cache, ds.Name, cachepb.Store_CONFIG)
+			st, _ := fixture.DumpStore(ctx, c.env.Cache, ds.Name, cachepb.Store_STATE)
+			c.compare(res, desc, m, cfg, st, validate, W, directed)
+			res.Count("quiescent_points_compared", 1)
+		}
+		for _, it := range script {
+			res.Tracef("  %s", it)
+		}
+	}
 	for _, it := range script {
+		if wire == "get" {
+			break
+		}
 		if len(res.Findings) > 0 {
 			break
 		}
@@ -567,7 +726,7 @@ func (c *c13) RunCase(w *core.Worker, idx int, seed uint64, res *core.CaseResult
 			continue
 		}
 		m.apply(it)
-		ch <- it.toSyncUpdate()
+		send(it)
 		if it.End {
 			prunes++
 		}
@@ -576,7 +735,7 @@ func (c *c13) RunCase(w *core.Worker, idx int, seed uint64, res *core.CaseResult
 			nDel += len(it.Dels)
 		}
 	}
-	if len(res.Findings) == 0 {
+	if len(res.Findings) == 0 && wire != "get" {
 		if !barrier() {
 			res.Inconclusive("C13/barrier-timeout", "%s: the final barrier was not reached within 20 s", desc)
 			return
